@@ -387,6 +387,10 @@ func (w *World) deliver(m msg) {
 		w.stats.Faults["msg_to_crashed"]++
 		return
 	}
+	if w.now < n.partUntil {
+		w.stats.Faults["msg_lost_in_partition"]++
+		return
+	}
 	if m.ann <= n.lastAnn {
 		if m.ann < n.lastAnn {
 			w.stats.Faults["msg_reordered_stale"]++
@@ -410,6 +414,9 @@ func (w *World) finish() {
 		if n.crashed {
 			w.restartNode(n, 0)
 		}
+	}
+	for _, n := range w.nodes {
+		n.partUntil = 0 // faults stop: every partition heals
 	}
 	w.announce(nil)
 	w.flush()
